@@ -1505,5 +1505,6 @@ func ifaceMeasureIter(i *Iter) int {
 //@   requires i.tape.Tape[i.off] == uint64(TagObjectEnd)<<56|uint64(i.off-1) && tagOf(i.tape.Tape[i.off+1]) == TagRoot && payOf(i.tape.Tape[i.off+1]) == uint64(i.off-2)
 //@   ensures marshals: result1 == nil && appended2(result0, old(dst), '{', '}')
 //@   invariant 0 iterOK(i) && len(stack) >= 1 && stack[0] == 0
+//@   invariant 0 phase: (i.off == old(i.off) && i.t == TagObjectStart && i.addNext == 0 && len(stack) == 1 && len(dst) == len(old(dst)) && sameSlice(dst, old(dst))) || (i.off == old(i.off)+1 && i.t == TagObjectEnd && i.addNext == 0 && len(stack) == 2 && stack[1] == 2 && appended1(dst, old(dst), '{')) || (i.off == old(i.off)+2 && i.t == TagRoot && i.cur == uint64(old(i.off))-2 && i.addNext == 0 && len(stack) == 1 && appended2(dst, old(dst), '{', '}'))
 //@   decreases 0 marshalMeasure(i)
 
